@@ -464,6 +464,13 @@ def _run(chk, args) -> int:
                               ref.param(['c', 0, 0]) + ref.coords('Predicate', 1, 0) + ref.param(['c', 1, 0]) + ' '
                               + ref.sym('Operator', 'Conjunction') + ' ' + ref.coords('Atomic', 0, 0)]))]
         compare_fresh(chk, fj, f'Frozen_{notn}_', 'frozen-store', shard=1)
+        # a store frozen from a live Predicates object, which then gains predicates: the frozen store (and a parser over
+        # it) still declares only what it declared when it was frozen
+        later = [render(notn, ref, ['P', [1, 0, 2], [['c', 0, 0], ['c', 1, 0]]]), render(notn, ref, ['P', [0, 0, 1], [['c', 0, 0]]]),
+                 render(notn, ref, ['P', [2, 0, 1], [['c', 0, 0]]])]
+        fj2 = [dict(notation=notn, preds=[[0, 0, 1]], auto=False, frozen=True, mode='fresh', inputs=later,
+                    frozen_from_store=[[1, 0, 2], [2, 0, 1]], frozen_how=how) for how in ('class', 'method')]
+        compare_fresh(chk, fj2, f'FrozenLive_{notn}_', 'frozen-store', shard=1)
         # ---- CPython boundary cases
         boundary(chk, notn, ref, thorough)
     shrink_findings(chk)
